@@ -9,7 +9,7 @@ def run(tier, seed, cx):
     t0 = time.time()
     for prof in ('debug', 'release'):
         for s in (seed, seed + 1):
-            p = subprocess.run(['%s/%s/h_arena' % (cx['TARGET'], prof), str(s), str(rounds)], stdout=subprocess.PIPE, stderr=subprocess.PIPE, text=True, timeout=3000)
+            p = subprocess.run(['%s/%s/h_arena' % (cx['TARGET'], prof), str(s), str(rounds)], stdout=subprocess.PIPE, stderr=subprocess.PIPE, text=True, errors='replace', timeout=3000)
             last = p.stdout.strip().split('\n')[-1] if p.stdout.strip() else ''
             m = re.search(r'sends=(\d+) reads=(\d+) corrupted=(\d+) reset_errors=(\d+)', last)
             if m:
